@@ -23,6 +23,17 @@ pub struct Case {
     pub http: bool,
     pub l2: bool,
     pub reads: ReadScript,
+    /// HTTP: 0 = every response body in one piece; n > 0 = bodies flushed in paced pieces of n bytes, so that frame
+    /// boundaries fall at chunk ends and inside padding (how a body is framed is the server's business)
+    #[serde(default)]
+    pub http_pieces: u16,
+}
+
+fn http_script(c: &Case) -> crate::http::Script {
+    match c.http_pieces {
+        0 => crate::http::Script::default(),
+        n => crate::http::Script { rules: vec![(crate::http::When::Always, crate::http::Action { pieces: vec![n as usize], pace_us: 150, ..Default::default() })], data_from: 0, max_requests: 0 },
+    }
 }
 
 fn check_accessors(e: &Encoded, c: &Case, archive: &Arc<Vec<u8>>) -> Result<(), String> {
@@ -117,7 +128,7 @@ pub fn run_case(c: &Case, rec: &mut CaseRec) -> Result<(), String> {
     }
     // http
     if c.http {
-        let srv = crate::http::Server::start(archive.clone(), crate::http::Script::default());
+        let srv = crate::http::Server::start(archive.clone(), http_script(c));
         let url: reqwest::Url = srv.url().parse().unwrap();
         let rep = crate::util::block_on(l1::clone_mirror(bitar::archive_reader::HttpReader::from_url(url), &opts));
         rep.result.clone().map_err(|x| format!("clone (http) of a conforming archive failed: {} (stage {})", x, rep.stage))?;
@@ -125,6 +136,7 @@ pub fn run_case(c: &Case, rec: &mut CaseRec) -> Result<(), String> {
             return Err(crate::util::describe_diff("clone (http): output differs from source", &rep.output.unwrap().data, &source));
         }
         rec.class("http");
+        rec.class_if(c.http_pieces > 0, "http_body_in_paced_pieces");
     }
     rec.level = Some("L1");
     // real CLI
@@ -142,7 +154,7 @@ pub fn run_case(c: &Case, rec: &mut CaseRec) -> Result<(), String> {
             if !out.contains(&want) || !out.contains(&hex::encode(&e.dict.source_checksum)) {
                 return Err(format!("bita info does not report {:?} / the source checksum", want));
             }
-            let srv = if c.http { Some(crate::http::Server::start(archive.clone(), crate::http::Script::default())) } else { None };
+            let srv = if c.http { Some(crate::http::Server::start(archive.clone(), http_script(c))) } else { None };
             let arch = srv.as_ref().map(|s| s.url()).unwrap_or_else(|| "a.cba".into());
             let mut args = vec!["--verify-output".to_string()];
             if let Some(s) = &seed {
@@ -257,9 +269,9 @@ pub fn case_strategy() -> impl Strategy<Value = Case> {
         prop_oneof![2 => Just(None), 1 => related_strategy(300).prop_map(Some)],
         prop::bool::weighted(0.25),
         prop::bool::weighted(0.06),
-        prop_oneof![3 => Just(ReadScript::full()), 1 => read_script_strategy()],
+        (prop_oneof![3 => Just(ReadScript::full()), 1 => read_script_strategy()], prop_oneof![2 => Just(0u16), 2 => 1u16..=16, 1 => 17u16..=300]),
     )
-        .prop_map(|(source, cfg, spec, seed, http, l2, reads)| Case { source, cfg, spec, seed, http, l2, reads })
+        .prop_map(|(source, cfg, spec, seed, http, l2, (reads, http_pieces))| Case { source, cfg, spec, seed, http, l2, reads, http_pieces })
 }
 
 impl Prop for C17 {
@@ -268,7 +280,7 @@ impl Prop for C17 {
     }
     fn meta(&self, _tier: Tier) -> Meta {
         Meta {
-            rule: "cases = (source, valid chunker config of any of the three algorithms, hash length 4..64, codec) encoded by the harness's own encoder (R2 + R1 + own compressors) with a generated layout: current / legacy magic, chunk-data offset = header end + 0..64 bytes of slack, stored chunks in permuted / descending order with 0..19 bytes of padding between them, trailing bytes, unknown protobuf fields (new numbers, wire types 0/1/2/5) at every message level, explicit zero fields, unpacked rebuild order, per-chunk raw vs compressed (never compressed with stored size == source size; compressed-larger-than-source allowed), metadata, foreign version strings, zero chunks. Oracle (round trip through an independent encoder): try_init succeeds, every Archive accessor equals the encoder's input, the clone (library mirror local and over HTTP, with and without a seed, --verify-output on; 6% through the real `bita info` + `bita clone`) yields exactly the source. Non-trivial = the encoding differs from bita's writer in at least one layout dimension (each dimension is counted in 'classes'); distinct by Blake2 of the canonical case.".into(),
+            rule: "cases = (source, valid chunker config of any of the three algorithms, hash length 4..64, codec) encoded by the harness's own encoder (R2 + R1 + own compressors) with a generated layout: current / legacy magic, chunk-data offset = header end + 0..64 bytes of slack, stored chunks in permuted / descending order with 0..19 bytes of padding between them, trailing bytes, unknown protobuf fields (new numbers, wire types 0/1/2/5) at every message level, explicit zero fields, unpacked rebuild order, per-chunk raw vs compressed (never compressed with stored size == source size; compressed-larger-than-source allowed), metadata, foreign version strings, zero chunks. Oracle (round trip through an independent encoder): try_init succeeds, every Archive accessor equals the encoder's input, the clone (library mirror local and over HTTP, with and without a seed, --verify-output on; 6% through the real `bita info` + `bita clone`) yields exactly the source. Non-trivial = the encoding differs from bita's writer in at least one layout dimension (each dimension is counted in 'classes'); distinct by Blake2 of the canonical case. Over HTTP the response bodies arrive in one piece or in paced pieces of 1-300 bytes (frame boundaries at chunk ends and inside padding).".into(),
             assumptions: vec!["conformance is defined by header.rs' layout table and chunk_dictionary.proto as implemented by R2".into(), "truncated-hash collisions between different chunk contents are discarded exactly (collision guard)".into()],
             ..Meta::default()
         }
